@@ -63,6 +63,8 @@ type Engine struct {
 	results          map[string]*HarnessResult
 	stop             atomic.Bool
 	LoadTime         time.Duration
+	sampleStride     int
+	sampleBudget     atomic.Int64
 	SrcFiles         []string
 }
 
@@ -255,6 +257,8 @@ func Load(opt Options) (*Engine, error) {
 
 func (e *Engine) stopRequested() bool { return e.stop.Load() }
 
+func (e *Engine) takeSample() bool { return e.sampleBudget.Add(-1) >= 0 }
+
 func (e *Engine) mergeResult(r *HarnessResult) {
 	e.mu.Lock()
 	defer e.mu.Unlock()
@@ -299,6 +303,12 @@ func (e *Engine) RunHarness(h *Harness) (*HarnessResult, error) {
 	n := e.Opt.Workers
 	if n < 1 {
 		n = 1
+	}
+	e.sampleStride = 37
+	if e.Opt.Tier == "thorough" {
+		e.sampleBudget.Store(120)
+	} else {
+		e.sampleBudget.Store(24)
 	}
 	e.sched = &sched{workers: n}
 	e.sched.cond = sync.NewCond(&e.sched.mu)
